@@ -74,6 +74,17 @@ def collect(h):
         raise h.Missing(f"{rel}: eventType.regenerateIDs no longer calls argObject.regenerateIDs")
     items.append(("c04_sync_prepass", "bool", "true" if 0 <= i_sync < i_arg else "false", rel))
     items.append(("c04_plans_shared", "bool", "true" if shared else "false", rel))
+    # validateObjectIDs: which fields of the argument rows are checked for unknown raw IDs - the reference fields only
+    # (RefFields) or every RecordID field (RecordIDs)?
+    rel = "pkg/istructsmem/validation.go"
+    body = h.func_body(rel, r"^func validateObjectIDs\(", "validateObjectIDs")
+    if re.search(r"range e\.fields\.RefFields\(\)", body):
+        plain_checked = "false"
+    elif re.search(r"range e\.RecordIDs\(false\)", body):
+        plain_checked = "true"
+    else:
+        raise h.Missing(f"{rel}: cannot tell which argument fields validateObjectIDs checks")
+    items.append(("c04_arg_plain_checked", "bool", plain_checked, rel))
     # appRecordsType.validEvent: a singleton create is refused whenever a record sits at the singleton's ID
     rel = "pkg/istructsmem/impl.go"
     body = h.func_body(rel, r"^func \(recs \*appRecordsType\) validEvent\(", "appRecordsType.validEvent")
